@@ -28,6 +28,8 @@ from sim.engines.gtf_store import digest_tx, digest_gene
 gi = sys.modules['moPepGen.cli.generate_index']
 ui = sys.modules['moPepGen.cli.update_index']
 common_mod = sys.modules['moPepGen.cli.common']
+import moPepGen.index  # noqa
+idx_mod = sys.modules['moPepGen.index']
 
 PROPERTY = 'C12'
 ENGINE = 'index-store'
@@ -38,7 +40,9 @@ PROBES = ['gen_on_existing_rejected', 'gen_force', 'gen_force_other_reference', 
           'upd_force_existing', 'upd_force_new', 'load_unregistered_rejected', 'skew_rejected', 'graph_params_alias',
           'auto_exception_alias', 'symlink', 'natural_failure', 'three_or_more_pools', 'invalid_protein_as_noncoding',
           'skew_rejected_plain_load', 'gen_force_on_old_layout', 'proteome_with_x_or_stop',
-          'load_after_failed_invocation']
+          'load_after_failed_invocation', 'load_after_failed_invocation_succeeded', 'crash', 'crash:before-open',
+          'crash:opened', 'crash:written', 'crash:written:torn', 'crash:before-remove', 'crash:before-copy',
+          'crash:copied']
 RULE = ('case = two generated references R_A/R_B; history = Hypothesis rule sequence (<=12 operations) over '
         'gen(R,P,force,symlink,flag) / upd(P,force) / load(P) / load_plain (parser path) / skew(field incl. pre-1.3.0 metadata layout) / unskew with P from an alphabet of 9 '
         'cleavage-parameter sets (two pairs alias each other: graph parameters only, and exception auto vs '
@@ -84,6 +88,128 @@ def cleavage_params(pname):
     return params.CleavageParams(enzyme=p['rule'], exception=p['exception'], miscleavage=int(p['miscleavage']),
                                  min_mw=float(p['min_mw']), min_length=p['min_length'], max_length=p['max_length'],
                                  **p.get('graph', {}))
+
+
+class Crash(BaseException):
+    """Simulated kill -9 of the invoked command (not an Exception: no product handler may swallow it)."""
+
+
+class _TornHandle:
+    """Write handle of the index module: the bytes reach the real file; at close the crash plan may cut the file."""
+    def __init__(self, plan, fh, path):
+        self._plan, self._fh, self._path = plan, fh, path
+
+    def write(self, data):
+        return self._fh.write(data)
+
+    def __getattr__(self, name):
+        return getattr(self._fh, name)
+
+    def __enter__(self):
+        return self
+
+    def __exit__(self, *exc):
+        self._fh.close()
+        if exc[0] is None:
+            self._plan.event('written', self._path)
+        return False
+
+
+class CrashPlan:
+    """Crash at the k-th durable-state event of one invocation (events: before a write-open, after it (file empty),
+    after the write (file complete or cut at `torn`), before os.remove / os.symlink, before and after the GTF copy).
+    At the crash instant the directory is copied: that copy is what survives the kill; whatever the interpreter
+    does while the exception unwinds (closing handles, finally blocks) is discarded with the restore."""
+    def __init__(self, k, torn, index_dir, snap_dir):
+        self.k, self.torn, self.index, self.snap = k, torn, Path(index_dir), Path(snap_dir)
+        self.n = 0
+        self.fired = None
+
+    def event(self, kind, path=None):
+        i = self.n
+        self.n += 1
+        if self.fired is not None or i != self.k:
+            return
+        if kind in ('written', 'copied') and path is not None and self.torn is not None and os.path.isfile(path) \
+                and not os.path.islink(path):
+            size = os.path.getsize(path)
+            with open(path, 'r+b') as fh:
+                fh.truncate(int(size * self.torn))
+            kind = kind + ':torn'
+        self.fired = kind + ':' + (os.path.basename(str(path)) if path is not None else '')
+        if self.snap.exists():
+            shutil.rmtree(self.snap)
+        if self.index.exists():
+            shutil.copytree(self.index, self.snap, symlinks=True)
+        raise Crash(self.fired)
+
+    # ---- seams of moPepGen.index -------------------------------------------------------------
+    def open(self, file, mode='r', *a, **k):
+        if 'w' not in mode and 'a' not in mode and '+' not in mode:
+            return open(file, mode, *a, **k)
+        self.event('before-open', file)
+        fh = open(file, mode, *a, **k)
+        fh.flush()
+        try:
+            self.event('opened', file)
+        except Crash:
+            fh.close()
+            raise
+        return _TornHandle(self, fh, file)
+
+    def restore(self):
+        if self.index.exists():
+            shutil.rmtree(self.index)
+        if self.snap.exists():
+            shutil.move(str(self.snap), str(self.index))
+
+
+class _OsProxy:
+    def __init__(self, plan):
+        self._plan = plan
+
+    def remove(self, path, *a, **k):
+        self._plan.event('before-remove', path)
+        return os.remove(path, *a, **k)
+
+    def symlink(self, src, dst, *a, **k):
+        self._plan.event('before-symlink', dst)
+        return os.symlink(src, dst, *a, **k)
+
+    def __getattr__(self, name):
+        return getattr(os, name)
+
+
+class _ShutilProxy:
+    def __init__(self, plan):
+        self._plan = plan
+
+    def copy2(self, src, dst, *a, **k):
+        self._plan.event('before-copy', dst)
+        r = shutil.copy2(src, dst, *a, **k)
+        self._plan.event('copied', dst)
+        return r
+
+    def __getattr__(self, name):
+        return getattr(shutil, name)
+
+
+@contextlib.contextmanager
+def crash_seams(plan):
+    """Attach the plan to the I/O names of moPepGen.index (module attributes; restored afterwards)."""
+    if plan is None:
+        yield
+        return
+    saved = {k: idx_mod.__dict__.get(k, None) for k in ('open', 'os', 'shutil')}
+    idx_mod.open, idx_mod.os, idx_mod.shutil = plan.open, _OsProxy(plan), _ShutilProxy(plan)
+    try:
+        yield
+    finally:
+        for k, v in saved.items():
+            if v is None:
+                idx_mod.__dict__.pop(k, None)
+            else:
+                idx_mod.__dict__[k] = v
 
 
 class Violation(Exception):
@@ -186,6 +312,8 @@ class Sim:
         self.saved_meta = None
         self.trans = []
         self.stats = {'kinds': {}, 'probes': {}}
+        self.plan = None          # CrashPlan of the invocation in flight
+        self.had_crash = False
 
     def probe(self, name):
         self.stats['probes'][name] = self.stats['probes'].get(name, 0) + 1
@@ -203,7 +331,17 @@ class Sim:
             gtf_symlink=symlink, force=force, cleavage_rule=p['rule'], cleavage_exception=p['exception'],
             miscleavage=str(p['miscleavage']), min_mw=str(p['min_mw']), min_length=p['min_length'],
             max_length=p['max_length'], quiet=True, debug_level=1)
-        return quiet_call(gi.generate_index, args)
+        return self.invoke(gi.generate_index, args)
+
+    def invoke(self, func, args):
+        """One invocation of a writing command, under the crash plan if one is armed."""
+        plan, self.plan = self.plan, None
+        try:
+            with crash_seams(plan):
+                return quiet_call(func, args)
+        except Crash as c:
+            plan.restore()
+            return ('crash', str(c))
 
     def inv_update(self, pname, force):
         p = PARAMS[pname]
@@ -211,7 +349,7 @@ class Sim:
             command='updateIndex', index_dir=self.ctx.index, force=force, cleavage_rule=p['rule'],
             cleavage_exception=p['exception'], miscleavage=str(p['miscleavage']), min_mw=str(p['min_mw']),
             min_length=p['min_length'], max_length=p['max_length'], quiet=True, debug_level=1)
-        return quiet_call(ui.update_index, args)
+        return self.invoke(ui.update_index, args)
 
     def inv_load(self, pname, everything=False):
         p = PARAMS[pname]
@@ -247,7 +385,9 @@ class Sim:
         meta = json.loads((ctx.index / 'metadata.json').read_text())
         files = [p['filename'] for p in meta['canonical_pools']]
         on_disk = sorted(f.name for f in ctx.index.glob('canonical_peptides_*.pkl'))
-        if len(files) != len(set(files)) or sorted(files) != on_disk or len(files) != len(self.pools):
+        # (a killed invocation may leave a pool file that was never registered: an orphan is not a pool of the index)
+        disk_ok = set(files) <= set(on_disk) if self.had_crash else sorted(files) == on_disk
+        if len(files) != len(set(files)) or not disk_ok or len(files) != len(self.pools):
             raise Violation('pool-registry', 'pool-registry',
                             {'after': after, 'metadata_files': files, 'on_disk': on_disk,
                              'model_pools': sorted(self.pools.values())})
@@ -276,6 +416,36 @@ class Sim:
                             {'after': after, 'got': sorted(coding)[:5], 'expected': sorted(exp['coding'])[:5]})
 
     # ---- operations --------------------------------------------------------------------------
+    def arm(self, k, torn):
+        self.plan = CrashPlan(k, torn, self.ctx.index, self.ctx.dir / 'crash_snapshot')
+
+    def crashed(self, before, what, r):
+        """The invocation was killed at r[1]; the directory is the copy taken at that instant.  From here on nothing is
+        demanded of the directory except that a load which succeeds is faithful (unclean_load), until a later
+        generateIndex --force succeeds."""
+        self.probe('crash')
+        self.had_crash = True
+        self.probe('crash:' + r[1].split(':')[0] + (':torn' if ':torn' in r[1] else ''))
+        self.exists = self.ctx.index.exists() and any(self.ctx.index.iterdir())
+        self.clean = False
+        self.skewed = None
+        self.trans.append((before, what, 'crash:' + r[1]))
+        if self.exists:
+            for pname in PNAMES:
+                self.unclean_load(pname)
+
+    def op_crash_gen(self, ref, pname, symlink, flag, k, torn):
+        if self.skewed:
+            return
+        self.arm(k, torn)
+        self.op_gen(ref, pname, True, symlink, flag)
+
+    def op_crash_upd(self, pname, force, k, torn):
+        if not (self.exists and self.clean) or self.skewed:
+            return
+        self.arm(k, torn)
+        self.op_upd(pname, force)
+
     def op_gen(self, ref, pname, force, symlink, flag):
         ctx = self.ctx
         refdir = ctx.fresh_copy(ref)
@@ -283,9 +453,14 @@ class Sim:
         nonempty = ctx.index.exists() and any(ctx.index.iterdir())
         before = self.state_sig()
         r = self.inv_generate(refdir, pname, force, symlink, flag)
+        if r[0] == 'crash':
+            self.crashed(before, 'gen', r)
+            return
         if nonempty and not force:
             self.probe('gen_on_existing_rejected')
-            if r != ('exit', 1) and not (self.skewed == 'old_layout' and r[0] != 'ok'):
+            if r != ('exit', 1) and not (self.skewed == 'old_layout' and r[0] != 'ok') \
+                    and not (not self.clean and r[0] != 'ok'):
+                # (directory left by a killed/failed invocation, e.g. a cut metadata.json: any refusal will do)
                 # (pre-1.3.0 metadata: the pinned tree refuses with KeyError from IndexDir() -- still a refusal)
                 self.clean = False
                 raise Violation('gen-reject', f'gen-reject:{r[0]}', {'result': r})
@@ -344,6 +519,9 @@ class Sim:
         meta_before = (self.ctx.index / 'metadata.json').read_text()
         r = self.inv_update(pname, force)
         c = canon(pname)
+        if r[0] == 'crash':
+            self.crashed(before, 'upd', r)
+            return
         if self.skewed:
             self.probe('skew_rejected')
             if r[0] == 'ok' or (self.skewed != 'old_layout' and r[:2] != ('exc', 'InvalidIndexError')):
@@ -528,6 +706,16 @@ def make_machine(ctx_factory, trace_box, stats_box, log=None):
         def upd2(self, p, force):
             self.do(('upd', p, force))
 
+        @rule(ref=st.sampled_from(['A', 'B']), p=pn, symlink=st.sampled_from([False] * 7 + [True]),
+              flag=st.sampled_from([False, False, False, True]), k=st.integers(0, 32),
+              torn=st.sampled_from([None, None, 0.0, 0.25, 0.5, 0.9]))
+        def crash_gen(self, ref, p, symlink, flag, k, torn):
+            self.do(('crash_gen', ref, p, symlink, flag, k, torn))
+
+        @rule(p=pn, force=st.booleans(), k=st.integers(0, 8), torn=st.sampled_from([None, None, 0.0, 0.25, 0.5, 0.9]))
+        def crash_upd(self, p, force, k, torn):
+            self.do(('crash_upd', p, force, k, torn))
+
         @rule(p=pn)
         def load(self, p):
             self.do(('load', p))
@@ -609,7 +797,7 @@ def run_case(seed, task, tier):
         out['steps'] += sum(sim.stats['kinds'].values())
         for k, v in sim.stats['probes'].items():
             out['probes'][k] = out['probes'].get(k, 0) + v
-            if k in ('skew_rejected', 'natural_failure', 'gen_on_existing_rejected'):
+            if k in ('skew_rejected', 'natural_failure', 'gen_on_existing_rejected') or k.startswith('crash'):
                 out['faults'][k] = out['faults'].get(k, 0) + v
         for t in sim.trans:
             out['signatures'].append({'state': t[0], 'op': t[1], 'outcome': t[2]})
